@@ -301,7 +301,16 @@ impl Prop for C11 {
                         if path == 2 && (players, rules) != (dflt.players, dflt.mutators_and_rules) {
                             continue;
                         }
-                        let st = u2_seed();
+                        // two servers: the usual one, and one with bots only, which are listed but not counted (num_players 0):
+                        // what the info reply says must not decide whether a section is gathered
+                        for bots_only in [false, true] {
+                        let mut st = u2_seed();
+                        if bots_only {
+                            for p in st.players.iter_mut() {
+                                p.ping = 0;
+                            }
+                            st.num_players = 0;
+                        }
                         // one datagram per list: stale fragments of a failed section are a delivery phenomenon (C08), not a toggle one
                         let server = ru::U2Server { state: st.clone(), rule_packets: 1, player_packets: 1 };
                         let gs = unreal2::GatheringSettings { players, mutators_and_rules: rules };
@@ -349,7 +358,7 @@ impl Prop for C11 {
                                 }
                             }
                         }
-                        let cfg = format!("rules {rules:?}/{} players {players:?}/{}", section_kind(so_r), section_kind(so_p));
+                        let cfg = format!("rules {rules:?}/{} players {players:?}/{}{}{}", section_kind(so_r), section_kind(so_p), ["", "; through the definition-driven entry point", "; through the definition-driven entry point with the toggles left out"][path as usize], if bots_only { "; server announcing 0 players and listing bots" } else { "" });
                         let mut bad: Option<(String, String)> = None;
                         if rules == GatherToggle::Skip && sent_kinds.contains(&1) {
                             bad = Some(("skipped-section-requested:unreal2:rules".into(), "a rules request was sent although the toggle is Skip".into()));
@@ -380,6 +389,7 @@ impl Prop for C11 {
                         } else if so_p != Sec::Valid {
                             ctx.sample(serde_json::json!({"case": label, "sections": cfg, "outcome": x.outcome.class(), "request_kinds": sent_kinds}));
                         }
+                    }
                     }
                     }
                 }
